@@ -301,6 +301,22 @@ class QueryPlanner:
             'user_functions': user_functions
         }
 
+    def cte_name_captures_table(self, query):
+        # a query is sent to an integration with the integration part of table names cut off:
+        # a table named like a CTE of the query would then be read as that CTE
+        if not isinstance(query, Select) or not query.cte:
+            return False
+        cte_names = {cte.name.parts[-1].lower() for cte in query.cte}
+        captured = []
+
+        def find_tables(node, is_table, **kwargs):
+            if is_table and isinstance(node, Identifier) and len(node.parts) > 1:
+                if isinstance(node.parts[-1], str) and node.parts[-1].lower() in cte_names:
+                    captured.append(node)
+
+        query_traversal(query, find_tables)
+        return len(captured) > 0
+
     def get_nested_selects_plan_fnc(self, main_integration, force=False):
         # returns function for traversal over query and inject fetch data query instead of subselects
         def find_selects(node, **kwargs):
@@ -771,6 +787,7 @@ class QueryPlanner:
                 and 'files' not in query_info['integrations']
                 and 'views' not in query_info['integrations']
                 and len(query_info['user_functions']) == 0
+                and not self.cte_name_captures_table(query)
         ):
 
             int_name = list(query_info['integrations'])[0]
